@@ -1280,7 +1280,15 @@ impl Engine for StorEngine {
           format!("did:iota:smr:0x{}", "cd".repeat(32)),
         )
       } else {
-        (format!("did:sim:own{i}"), "did:sim:other".to_owned())
+        // the foreign DID is unrelated, or a look-alike that merely EXTENDS the document's own DID
+        let own = format!("did:sim:own{i}");
+        let foreign = if ctx::choose(3) == 0 {
+          ctx::stat("probe.foreign_did_extends_own_did");
+          format!("{own}7")
+        } else {
+          "did:sim:other".to_owned()
+        };
+        (own, foreign)
       };
       let start = ctx::choose(3);
       let model = match start {
